@@ -5,7 +5,7 @@
    designated source index of a non-fill element lies inside the source (property C02 cites them).
    Routines without an element theorem here (roll with a tuple of axes, sliding_window / expand with several axes,
    diagonal beyond matrices, the stack family, split, compress with axis=None, repeat with per-element counts, where,
-   arange / linspace / full) are CORRESPONDENCE-ONLY: modelled, specified and compared with the C++ on the explored grid, not proved. *)
+   full / zeros / ones) are CORRESPONDENCE-ONLY: modelled, specified and compared with the C++ on the explored grid, not proved. *)
 From NM Require Import Base Index IndexProofs Select SelectProofs.
 Local Open Scope Z_scope.
 
@@ -37,24 +37,15 @@ Theorem C04_repeat_flat : forall s r k, pos s -> 1 <= r -> inb [k] (shape_repeat
 Proof. exact repeat_none_spec. Qed.
 Print Assumptions C04_repeat_flat.
 
-(* 0 <= axis < dim: that extent is multiplied, coordinate j reads source coordinate j / r *)
-Theorem C04_repeat_axis_on_domain : forall s r a i, pos s -> 1 <= r -> 0 <= a < zlen s ->
-  exists d, shape_repeat_axis s r a = Val d /\ np_repeat_axis_shape s r a = Some d
-    /\ (inb i d -> np_repeat_axis_index i r a = Some (repeat_axis_index i r a) /\ inb (repeat_axis_index i r a) s).
-Proof.
-  intros s r a i Hp Hr Ha. destruct (repeat_axis_shape_spec s r a Ha) as [H1 H2].
-  eexists. split; [exact H1|]. split; [exact H2|]. intros Hi. exact (repeat_axis_elem_spec s r a i Hp Hr Ha Hi).
-Qed.
-Print Assumptions C04_repeat_axis_on_domain.
-
-(* the full statement (every valid NumPy axis, negative included) fails: the axis is never normalised *)
-Theorem C04_repeat_negative_axis_refuted : exists s r a i d,
-  pos s /\ 1 <= r /\ - zlen s <= a < 0 /\ np_repeat_axis_shape s r a = Some d /\ inb i d
-  /\ np_repeat_axis_index i r a <> Some (repeat_axis_index i r a) /\ inbb (repeat_axis_index i r a) s = false.
-Proof.
-  exists [2;3], 2, (-1), [0;5], [2;6]. witness.
-Qed.
-Print Assumptions C04_repeat_negative_axis_refuted.
+(* every valid axis -dim <= axis < dim: that extent is multiplied, coordinate j reads source coordinate j / r *)
+Theorem C04_repeat_axis : forall s r a i, pos s -> 1 <= r -> - zlen s <= a < zlen s ->
+  exists k, np_axis a (zlen s) = Some k
+  /\ shape_repeat_axis s r a = Val (set_nth k (nth k s 0 * r) s)
+  /\ np_repeat_axis_shape s r a = Some (set_nth k (nth k s 0 * r) s)
+  /\ (inb i (set_nth k (nth k s 0 * r) s) ->
+      np_repeat_axis_index i r a = Some (repeat_axis_index i r a) /\ inb (repeat_axis_index i r a) s).
+Proof. exact repeat_axis_full. Qed.
+Print Assumptions C04_repeat_axis.
 
 (* ---------- roll ---------- *)
 (* one axis (negative axes included), ANY shift (sign, magnitude): coordinate j reads (j - shift) mod n *)
@@ -96,50 +87,34 @@ Qed.
 Print Assumptions C04_pad.
 
 (* ---------- take ---------- *)
-Theorem C04_take_axis_on_domain : forall s ind a i, 0 <= a < zlen s ->
-  Forall (fun x => 0 <= x < nth (Z.to_nat a) s 0) ind -> nth (Z.to_nat a) s 0 <= 2 ^ 64 ->
-  exists d, shape_take_axis s ind a = d /\ np_take_axis_shape s ind a = Some d
-    /\ (inb i d -> np_take_axis_index s ind i a = Some (take_axis_index ind i a) /\ inb (take_axis_index ind i a) s).
-Proof.
-  intros s ind a i Ha HF Hw. destruct (take_axis_shape_spec s ind a Ha) as [H1 H2].
-  eexists. split; [exact H1|]. split; [exact H2|]. intros Hi. exact (take_axis_elem_spec s ind a i Ha HF Hw Hi).
-Qed.
-Print Assumptions C04_take_axis_on_domain.
+(* every valid axis, every valid entry -n <= e < n (negative entries count from the end) *)
+Theorem C04_take_axis : forall s ind a i, - zlen s <= a < zlen s ->
+  exists k, np_axis a (zlen s) = Some k
+  /\ shape_take_axis s ind a = set_nth k (zlen ind) s
+  /\ np_take_axis_shape s ind a = Some (set_nth k (zlen ind) s)
+  /\ (Forall (fun x => - nth k s 0 <= x < nth k s 0) ind -> nth k s 0 <= 2 ^ 64 ->
+      inb i (set_nth k (zlen ind) s) ->
+      np_take_axis_index s ind i a = Some (take_axis_index s ind i a) /\ inb (take_axis_index s ind i a) s).
+Proof. exact take_axis_full. Qed.
+Print Assumptions C04_take_axis.
 
-Theorem C04_take_flat_on_domain : forall s ind k, pos s -> prod s <= 2 ^ 64 ->
-  Forall (fun x => 0 <= x < prod s) ind -> inb [k] (shape_take_none ind) ->
+Theorem C04_take_flat : forall s ind k, pos s -> prod s <= 2 ^ 64 ->
+  Forall (fun x => - prod s <= x < prod s) ind -> inb [k] (shape_take_none ind) ->
   shape_take_none ind = np_take_none_shape ind
   /\ inb (take_none_index s ind [k]) s
   /\ np_take_none_flat s ind k = Some (horner 0 (take_none_index s ind [k]) s).
-Proof. exact take_none_spec. Qed.
-Print Assumptions C04_take_flat_on_domain.
+Proof. exact take_none_full. Qed.
+Print Assumptions C04_take_flat.
 
-Theorem C04_take_negative_axis_refuted : exists s ind a,
-  pos s /\ - zlen s <= a < 0 /\ np_take_axis_shape s ind a <> Some (shape_take_axis s ind a).
-Proof. exists [2;3], [1;0], (-1). witness. Qed.
-Print Assumptions C04_take_negative_axis_refuted.
-
-Theorem C04_take_negative_index_refuted : exists s ind k,
-  pos s /\ inb [k] (shape_take_none ind)
-  /\ np_take_none_flat s ind k <> Some (horner 0 (take_none_index s ind [k]) s).
-Proof. exists [2;3], [-1], 0. witness. Qed.
-Print Assumptions C04_take_negative_index_refuted.
-
-(* compress along 0 <= axis < dim with a condition no longer than the axis: NumPy's take of the true positions *)
-Theorem C04_compress_axis_on_domain : forall s c a i, 0 <= a < zlen s ->
-  zlen c <= nth (Z.to_nat a) s 0 -> nth (Z.to_nat a) s 0 <= 2 ^ 64 ->
-  shape_compress_axis s c a = set_nth (Z.to_nat a) (zlen (np_true_positions c)) s
-  /\ np_take_axis_shape s (np_true_positions c) a = Some (set_nth (Z.to_nat a) (zlen (np_true_positions c)) s)
-  /\ (inb i (set_nth (Z.to_nat a) (zlen (np_true_positions c)) s) ->
+(* compress along any valid axis with a condition no longer than the axis: NumPy's take of the true positions *)
+Theorem C04_compress_axis : forall s c a i, - zlen s <= a < zlen s ->
+  exists k, np_axis a (zlen s) = Some k
+  /\ shape_compress_axis s c a = set_nth k (zlen (np_true_positions c)) s
+  /\ np_take_axis_shape s (np_true_positions c) a = Some (set_nth k (zlen (np_true_positions c)) s)
+  /\ (zlen c <= nth k s 0 -> inb i (set_nth k (zlen (np_true_positions c)) s) ->
       np_take_axis_index s (np_true_positions c) i a = Some (compress_axis_index c i a) /\ inb (compress_axis_index c i a) s).
-Proof. exact compress_axis_spec. Qed.
-Print Assumptions C04_compress_axis_on_domain.
-
-(* compress = take of the true positions; the same un-normalised axis comparison *)
-Theorem C04_compress_negative_axis_refuted : exists s c a,
-  pos s /\ - zlen s <= a < 0 /\ np_take_axis_shape s (np_true_positions c) a <> Some (shape_compress_axis s c a).
-Proof. exists [2;3], [0;1], (-1). witness. Qed.
-Print Assumptions C04_compress_negative_axis_refuted.
+Proof. exact compress_axis_full. Qed.
+Print Assumptions C04_compress_axis.
 
 (* ---------- resize (nearest neighbour) ---------- *)
 Theorem C04_resize : forall s d r i, pos s -> doc_resize_shape s d = Some r ->
@@ -151,17 +126,14 @@ Qed.
 Print Assumptions C04_resize.
 
 (* ---------- concatenate ---------- *)
-Theorem C04_concatenate_axis_on_domain : forall a b axis d i, 0 <= axis < zlen a ->
+Theorem C04_concatenate_axis : forall a b axis d i, - zlen a <= axis < zlen a ->
   np_concat_axis_shape a b axis = Some d ->
   shape_concat_axis a b axis = Val d
   /\ (inb i d -> concat_axis_index a b i axis = np_concat_axis_index a i axis
       /\ match concat_axis_index a b i axis with
          | OpLeft j => inb j a | OpRight j => inb j b | OpNeither => False end).
-Proof.
-  intros a b axis d i Ha H. split; [exact (concat_axis_shape_spec a b axis d Ha H)|].
-  intros Hi. exact (concat_axis_elem_spec a b axis d i Ha H Hi).
-Qed.
-Print Assumptions C04_concatenate_axis_on_domain.
+Proof. exact concat_axis_full. Qed.
+Print Assumptions C04_concatenate_axis.
 
 Theorem C04_concatenate_flat : forall a b k, pos a -> pos b -> inb [k] (shape_concat_none a b) ->
   shape_concat_none a b = np_concat_none_shape a b
@@ -171,11 +143,6 @@ Theorem C04_concatenate_flat : forall a b k, pos a -> pos b -> inb [k] (shape_co
      | OpNeither => False end.
 Proof. exact concat_none_spec. Qed.
 Print Assumptions C04_concatenate_flat.
-
-Theorem C04_concatenate_negative_axis_refuted : exists a b axis d,
-  pos a /\ pos b /\ - zlen a <= axis < 0 /\ np_concat_axis_shape a b axis = Some d /\ shape_concat_axis a b axis <> Val d.
-Proof. exists [2;3], [2;2], (-1), [2;5]. witness. Qed.
-Print Assumptions C04_concatenate_negative_axis_refuted.
 
 (* ---------- tril / triu / tri / eye / diagflat ---------- *)
 Theorem C04_tril_triu : forall s i k, (2 <= length s)%nat -> inb i s ->
@@ -232,36 +199,29 @@ Theorem C04_expand_axis : forall s a q i, pos s -> 0 <= q -> - zlen s <= a < zle
 Proof. exact expand_axis_spec. Qed.
 Print Assumptions C04_expand_axis.
 
-(* PARTIAL: matrices with axes (0,1) and offset >= 0 only; higher dimensions and other axis pairs are
-   correspondence-only; negative offsets are refuted below *)
-Theorem C04_diagonal_matrix_partial : forall n1 n2 offset t, 1 <= n1 -> 1 <= n2 -> 0 <= offset ->
-  0 <= t < np_diag_len n1 n2 offset ->
+(* PARTIAL: matrices with axes (0,1), ANY offset (negative and beyond the extent included: NumPy's clamped length);
+   higher dimensions and other axis pairs are correspondence-only *)
+Theorem C04_diagonal_matrix_partial : forall n1 n2 offset t, 1 <= n1 -> 1 <= n2 ->
   shape_diagonal [n1; n2] offset 0 1 = Val [np_diag_len n1 n2 offset]
   /\ np_diagonal_shape [n1; n2] offset 0 1 = Some [np_diag_len n1 n2 offset]
-  /\ np_diagonal_index 2 [t] offset 0 1 = Some (diagonal_index 2 [t] offset 0 1)
-  /\ inb (diagonal_index 2 [t] offset 0 1) [n1; n2].
+  /\ (0 <= t < np_diag_len n1 n2 offset ->
+      np_diagonal_index 2 [t] offset 0 1 = Some (diagonal_index 2 [t] offset 0 1)
+      /\ inb (diagonal_index 2 [t] offset 0 1) [n1; n2]).
 Proof. exact diagonal_2d_spec. Qed.
 Print Assumptions C04_diagonal_matrix_partial.
 
-(* ---------- diagonal, arange, linspace: refutations of the full statement ---------- *)
-Theorem C04_diagonal_negative_offset_refuted : exists s offset i d,
-  pos s /\ np_diagonal_shape s offset 0 1 = Some d /\ inb i d
-  /\ np_diagonal_index 2 i offset 0 1 <> Some (diagonal_index 2 i offset 0 1)
-  /\ inbb (diagonal_index 2 i offset 0 1) s = false.
-Proof.
-  exists [3;3], (-1), [0], [2]. witness.
-Qed.
-Print Assumptions C04_diagonal_negative_offset_refuted.
+(* ---------- generators: element count of arange, elements of linspace (exact rationals) ---------- *)
+Theorem C04_arange_count : forall start stop p q, p <> 0 ->
+  arange_len start stop p q = Val (np_arange_len start stop p q).
+Proof. exact arange_len_spec. Qed.
+Print Assumptions C04_arange_count.
 
-Theorem C04_arange_negative_count_refuted : exists start stop p q,
-  p <> 0 /\ 0 < q /\ arange_len start stop p q <> Val (np_arange_len start stop p q).
-Proof. exists 3, 0, 1, 1. witness. Qed.
-Print Assumptions C04_arange_negative_count_refuted.
-
-Theorem C04_linspace_num1_endpoint_refuted : exists start stop,
-  snd (linspace_elem start stop 1 true 0) = 0 /\ np_linspace_elem start stop 1 true 0 = (start, 1).
-Proof. exists 2, 5. split; reflexivity. Qed.
-Print Assumptions C04_linspace_num1_endpoint_refuted.
+Theorem C04_linspace_element : forall start stop num endpoint i, 1 <= num -> 0 <= i < num ->
+  let m := linspace_elem start stop num endpoint i in
+  let sp := np_linspace_elem start stop num endpoint i in
+  snd m <> 0 /\ snd sp <> 0 /\ fst m * snd sp = fst sp * snd m.
+Proof. exact linspace_elem_spec. Qed.
+Print Assumptions C04_linspace_element.
 
 (* ---------- non-vacuity ---------- *)
 Example C04_nonvacuous_tile : pos [2;3] /\ shape_tile [2;3] [2;1;2] = [2;2;6] /\ inb [1;1;4] [2;2;6]
@@ -276,9 +236,23 @@ Proof. repeat split; try (repeat constructor; lia). Qed.
 Example C04_nonvacuous_pad : shape_pad [2;3] [1;0;2;1] = Val [5;4] /\ pad_index [1;2] [2;3] [1;0;2;1] = Some [0;2]
   /\ pad_index [0;2] [2;3] [1;0;2;1] = None.
 Proof. repeat split. Qed.
-Example C04_nonvacuous_take : shape_take_axis [2;3] [2;0;0] 1 = [2;3] /\ take_axis_index [2;0;0] [1;0] 1 = [1;2]
-  /\ Forall (fun x => 0 <= x < nth (Z.to_nat 1) [2;3] 0) [2;0;0].
+Example C04_nonvacuous_take : shape_take_axis [2;3] [2;0;0] 1 = [2;3] /\ take_axis_index [2;3] [2;0;0] [1;0] 1 = [1;2]
+  /\ Forall (fun x => - 3 <= x < 3) [2;0;-1].
 Proof. repeat split; repeat constructor; cbn; lia. Qed.
+(* regression examples: the inputs of the former findings (negative axis / negative entries / negative offset /
+   empty range / num = 1) now give NumPy's answer *)
+Example C04_regression_negative_axis :
+  repeat_axis_index [0;5] 2 (-1) = [0;2]
+  /\ shape_take_axis [2;3] [1;0] (-1) = [2;2] /\ take_axis_index [2;3] [1;0] [1;0] (-1) = [1;1]
+  /\ shape_compress_axis [2;3] [0;1] (-1) = [2;1] /\ compress_axis_index [0;1] [1;0] (-1) = [1;1]
+  /\ shape_concat_axis [2;3] [2;2] (-1) = Val [2;5] /\ concat_axis_index [2;3] [2;2] [1;4] (-1) = OpRight [1;1].
+Proof. witness. Qed.
+Example C04_regression_entries_offsets :
+  take_axis_index [2;3] [-1;0] [1;0] 1 = [1;2] /\ horner 0 (take_none_index [2;3] [-1] [0]) [2;3] = 5
+  /\ shape_diagonal [3;3] (-1) 0 1 = Val [2] /\ diagonal_index 2 [1] (-1) 0 1 = [2;1]
+  /\ shape_diagonal [2;3] 4 0 1 = Val [0]
+  /\ arange_len 3 0 1 1 = Val 0 /\ linspace_elem 2 5 1 true 0 = (2, 1).
+Proof. witness. Qed.
 Example C04_nonvacuous_concat : np_concat_axis_shape [2;3] [2;2] 1 = Some [2;5] /\ inb [1;4] [2;5]
   /\ concat_axis_index [2;3] [2;2] [1;4] 1 = OpRight [1;1] /\ concat_axis_index [2;3] [2;2] [1;2] 1 = OpLeft [1;2].
 Proof. repeat split; try (repeat constructor; lia). Qed.
